@@ -159,7 +159,7 @@ def attr_line(I, pp, type_name: str, key: str, value: Any):
     d.factory = None
     d["__type__"] = type_name
     d[key] = value
-    outs = I.explore("pprint.PrettyPrinter._format", lambda: (pp() if callable(pp) else pp, [d], {"level": 0}))  # level by name: it may be keyword-only
+    outs = I.explore(models.fmt_qual(I.repo), lambda: (pp() if callable(pp) else pp, [d], models.fmt_level_kw(I.repo, 0)))  # level by name: it may be keyword-only
     if len(outs) != 1:
         raise AnalysisError(f"_format forks for {type_name}.{key}: {[o.assumptions for o in outs]}")
     o = outs[0]
@@ -221,7 +221,7 @@ def block_lines(I, pp, type_name: str, items: list) -> list:
     d["__type__"] = type_name
     for k, v in items:
         d[k] = v
-    outs = I.explore("pprint.PrettyPrinter._format", lambda: (pp() if callable(pp) else pp, [d], {"level": 0}))  # level by name: it may be keyword-only
+    outs = I.explore(models.fmt_qual(I.repo), lambda: (pp() if callable(pp) else pp, [d], models.fmt_level_kw(I.repo, 0)))  # level by name: it may be keyword-only
     if len(outs) == 1 and outs[0].kind == "raise":
         raise PrinterRaised(f"_format raises {outs[0].exc} on a {type_name} holding {[k for k, _ in items]}")
     if len(outs) != 1:
